@@ -68,7 +68,7 @@ UnusedSpec(c) == { a \in SpecNames(c, Shell(c)) : a \notin MentionedNames(c) }
 ----------------------------------------------------------------------------
 (* structural mistakes (C08), decidable without expanding anything *)
 CmdNames(c) == { Variants(c)[i].name : i \in 1..Len(Variants(c)) }
-HasSlash(c) == \E i \in 1..Len(Variants(c)) : 47 \in Range(Variants(c)[i].namecp)
+HasSlash(c) == \E i \in 1..Len(Variants(c)) : 47 \in RangeS(Variants(c)[i].namecp)
 DupPlain(c) == \E a \in PlainNames(c) : Cardinality(DefIdx(c, a, "")) > 1
 DupSpec(c)  == \E a \in SpecNames(c, Shell(c)) : Cardinality(DefIdx(c, a, Shell(c))) > 1
 UnknownShell(c) == \E i \in 1..Len(Defs(c)) : Defs(c)[i].sh \notin (KnownShells \cup {""})
